@@ -265,14 +265,17 @@ class ExcludeRegionState(object):  # pylint: disable=too-many-instance-attribute
         xAxis = self.position.X_AXIS
         yAxis = self.position.Y_AXIS
 
+        # All of the points are visited, so the position ends up at the final point (the point
+        # the tool would be at) even when an earlier point is found to be excluded.
+        anyExcluded = False
         for index in range(0, len(xyPairs), 2):
             x = xAxis.setLogicalPosition(xyPairs[index])
             y = yAxis.setLogicalPosition(xyPairs[index + 1])
 
-            if (self.isPointExcluded(x, y)):
-                return True
+            if ((not anyExcluded) and self.isPointExcluded(x, y)):
+                anyExcluded = True
 
-        return False
+        return anyExcluded
 
     def isExclusionEnabled(self):
         """Whether exclusion is currently enabled (True) or disabled (False)."""
